@@ -100,11 +100,75 @@ def main_catches(rep, prog, X):
         rep.violation("C17.main-catches", prog, fn, None, "main has no catch(std::exception)", "main no longer catches std::exception")
 
 
-def idiom_guarded(prog, fn, call):
+def _canon_obj(t):
+    return t.replace("this->", "").replace(" ", "").replace("(", "").replace(")", "")
+
+
+def _alias_text(fn, e):
+    """canonical text of the object an expression designates: reference locals (bound once) replaced by what they are bound to,
+    value locals by their initialisers"""
+    from ..model import expand_text
+    x = strip(e)
+    for _ in range(4):
+        if x.get("k") == "DeclRefExpr" and (x.get("ref") or {}).get("dk") == "Var":
+            v = [v_ for v_ in walk(fn["body"]) if v_.get("k") == "Var" and v_.get("did") == x["ref"].get("did") and (v_.get("t") or "").rstrip().endswith("&") and isinstance(v_.get("init"), dict)]
+            if len(v) == 1:
+                x = strip(v[0]["init"])
+                continue
+        break
+    return _canon_obj(expand_text(fn, x))
+
+
+def helper_idiom_guarded(prog, fn, call, X):
+    """call of a repository helper whose only throwing sites are calls listed in GUARDED_THROW_IDIOMS on objects named through its
+    parameters / members, each of which is known at this call (with the arguments substituted) not to be in the throwing state."""
+    tks = [tk for tk in prog.call_targets(call)]
+    if len(tks) != 1:
+        return False
+    g = prog.functions[tks[0]]
+    if not isinstance(g.get("body"), dict) or g.get("noexcept") or g["qn"] in GUARDED_THROW_IDIOMS or "/lib/" in g.get("file", ""):
+        return False
+    sites = [n for n in walk(g["body"]) if is_call(n) and n.get("callee", "") in GUARDED_THROW_IDIOMS and call_obj(n) is not None]
+    if not sites:
+        return False
+    saved = [(n, n.get("ckey")) for n in sites]
+    for n, _ in saved:
+        n["ckey"] = None
+    try:
+        rest = X.escapes(g, g["body"])
+    finally:
+        for n, ck in saved:
+            n["ckey"] = ck
+    rest.pop("<rethrow>", None)
+    if rest:
+        return False
+    params = [p_.get("name") for p_ in g.get("params", []) if isinstance(p_, dict)]
+    args = call_args(call)
+    if len(args) < len(params):
+        return False
+    from ..model import facts_at, expand_text
+    fi = prog.index(fn)
+    facts = [(atom, truth) for atom, truth in facts_at(fn, fi, call) if atom.get("k") == "CXXMemberCallExpr" and call_obj(atom) is not None]
+    written = {(strip(t_).get("ref") or {}).get("name") for w in walk(g["body"]) if w.get("k") in ("BinaryOperator", "CompoundAssignOperator", "UnaryOperator") and w.get("op") in ("=", "+=", "-=", "++", "--", "post++", "pre++", "post--", "pre--") for t_ in w.get("c", [])[:1]}
+    for n in sites:
+        meth, needed_pol, _ = GUARDED_THROW_IDIOMS[n["callee"]]
+        obj_t = render(call_obj(n))
+        for pn, a in zip(params, args):
+            if pn and re.search(r"\b%s\b" % re.escape(pn), obj_t):
+                if pn in written:
+                    return False
+                obj_t = re.sub(r"\b%s\b" % re.escape(pn), expand_text(fn, a), obj_t)
+        key = _canon_obj(obj_t)
+        if not any(atom.get("callee", "").endswith("::" + meth) and truth == needed_pol and _alias_text(fn, call_obj(atom)) == key for atom, truth in facts):
+            return False
+    return True
+
+
+def idiom_guarded(prog, fn, call, X=None):
     """call to a callee listed in GUARDED_THROW_IDIOMS dominated by the negation of its throw condition."""
     callee = call.get("callee", "")
     if callee not in GUARDED_THROW_IDIOMS:
-        return False
+        return X is not None and helper_idiom_guarded(prog, fn, call, X)
     meth, needed_pol, _ = GUARDED_THROW_IDIOMS[callee]
     obj = call_obj(call)
     if obj is None:
@@ -113,9 +177,9 @@ def idiom_guarded(prog, fn, call):
     fi = prog.index(fn)
     # atomic facts that hold at the call (guards with locals expanded, negations pushed inwards, conjunctions that hold and
     # disjunctions that do not hold split): is `obj.<meth>()` known to have the needed truth value?
-    from ..model import facts_at
+    from ..model import facts_at, expand_text
     for atom, truth in facts_at(fn, fi, call):
-        if atom.get("k") == "CXXMemberCallExpr" and atom.get("callee", "").endswith("::" + meth) and render(call_obj(atom)) == key and truth == needed_pol:
+        if atom.get("k") == "CXXMemberCallExpr" and atom.get("callee", "").endswith("::" + meth) and truth == needed_pol and call_obj(atom) is not None and (render(call_obj(atom)) == key or _alias_text(fn, call_obj(atom)) == _alias_text(fn, obj)):
             return True
     return False
 
@@ -146,7 +210,7 @@ def escapes_with_idioms(prog, X, fn):
     """X.escapes, minus throws of idiom-guarded callees."""
     guarded_sites = set()
     for n in walk(fn["body"]):
-        if is_call(n) and idiom_guarded(prog, fn, n):
+        if is_call(n) and idiom_guarded(prog, fn, n, X):
             guarded_sites.add(id(n))
     if not guarded_sites:
         esc = X.escapes(fn, fn["body"])
